@@ -264,7 +264,18 @@ def coq_eval(prop: str, name: str, text: str, timeout=900):
     return rc == 0, out
 
 
+_model_cache: dict = {}
+
+
 def ocaml_model(prop: str, deps: list[str]):
+    """Per-process cache around _ocaml_model (the build takes the shared Coq lock)."""
+    key = (prop, tuple(deps), REPO)
+    if key not in _model_cache or not _model_cache[key][0]:
+        _model_cache[key] = _ocaml_model(prop, deps)
+    return _model_cache[key]
+
+
+def _ocaml_model(prop: str, deps: list[str]):
     """Extract coq/Extract/<prop>.v (ExtrOcamlBasic only; it must end with
     `Extraction "model.ml" ...`) and link it with ocaml/common/conv.ml and
     ocaml/<prop>/driver.ml into bin/modelrun_<prop>.  `deps` are the project .vo targets
